@@ -68,38 +68,35 @@ Proof. exact proj_deep_current. Qed.
 Print Assumptions C15_deep_by_content_project_level.
 
 
-(* ---------------------------------------------------------------- exclude_never_touched
-   FULL statement: a file whose name matches an exclude pattern is never created or modified.
-   PARTIAL (this is the open known finding 5; the repair, exclude patterns handed to copytree, is a design
-   decision and has not landed): for /repo as it is the statement is proved for the file walk of a real run that
-   cannot reach copytree (not recursive) — any outcome; the destination node at such a path is unchanged unless
-   it is a directory on both sides (directories are walked, not matched).  For an arbitrary configuration with
-   fix_excl the recursive case holds too.  MISSING for /repo: left-only directories and cloned jobs are copied
-   whole — C15_exclude_never_touched_refuted *)
-Theorem C15_exclude_never_touched_partial : forall frepr p fuel o deep sdir ddir subdir,
-  o_recursive o = false ->
-  wf_node (Dir sdir) = true -> o_dry_run o = false ->
+(* ---------------------------------------------------------------- exclude_never_touched — FULL, for /repo as it is
+   (cfg_current; repair 74ea1a0 hands the patterns to copytree): a file whose own name matches an exclude pattern —
+   a user pattern, or the state point / document name — is never created or modified by the file walk, at any
+   depth, also inside directories that are copied as a whole, dry or real, whatever the outcome.  "Never created or
+   modified": the node at the path is what it was (absent stays absent).  The one proviso is about kinds, not
+   about files: if the path is a DIRECTORY on both sides it is walked like every common directory (directories are
+   not matched against the patterns when they exist on both sides), so its node may change below.  The former
+   counterexample is corpus/C15/w5. *)
+Theorem C15_exclude_never_touched : forall frepr p fuel o deep sdir ddir subdir,
+  wf_node (Dir sdir) = true ->
   p <> [] -> excluded cfg_current o (last p []) = true ->
   (forall es, lookup_path p (Dir ddir) <> Some (Dir es)) ->
   lookup_path p (Dir (fst (sync_ws frepr cfg_current fuel o deep sdir ddir subdir))) = lookup_path p (Dir ddir).
 Proof. exact exclude_never_touched_current. Qed.
-Print Assumptions C15_exclude_never_touched_partial.
+Print Assumptions C15_exclude_never_touched.
 
-Theorem C15_exclude_never_touched_partial_with_repair : forall frepr cf p fuel o deep sdir ddir subdir,
-  fix_excl cf = true \/ o_recursive o = false ->
-  wf_node (Dir sdir) = true -> o_dry_run o = false ->
-  p <> [] -> excluded cf o (last p []) = true ->
-  (forall es, lookup_path p (Dir ddir) <> Some (Dir es)) ->
-  lookup_path p (Dir (fst (sync_ws frepr cf fuel o deep sdir ddir subdir))) = lookup_path p (Dir ddir).
-Proof. exact ws_exclude_never_touched. Qed.
-Print Assumptions C15_exclude_never_touched_partial_with_repair.
+(* cloned jobs: a job that is created by the call contains nothing — file or directory, at any depth — whose name
+   matches a user pattern, except the state point and the document, which make up the job; a dry run creates
+   nothing at all *)
+Theorem C15_exclude_never_touched_clone : forall frepr o id sd ws p,
+  o_dry_run o = false -> alookup id ws = None -> p <> [] -> clone_excl o (last p []) = true ->
+  lookup_path (id :: p) (Dir (fst (clone_or_sync frepr cfg_current o (id, Dir sd) ws))) = None.
+Proof. exact clone_excluded_absent. Qed.
+Print Assumptions C15_exclude_never_touched_clone.
 
-Theorem C15_exclude_never_touched_refuted :
-  exists i, o_exclude (i_opts i) [120%N] = true
-            /\ exclude_ok nofl i (c_obs (model_case nofl cfg_current i)) = false
-            /\ exclude_ok nofl i (c_obs (model_case nofl cfg_fixed i)) = true.
-Proof. exists wit_C15_w5. exact w5_facts. Qed.
-Print Assumptions C15_exclude_never_touched_refuted.
+Theorem C15_dry_run_clone_creates_nothing : forall frepr o id sd ws,
+  o_dry_run o = true -> alookup id ws = None -> clone_or_sync frepr cfg_current o (id, Dir sd) ws = (ws, None).
+Proof. exact clone_dry_nothing. Qed.
+Print Assumptions C15_dry_run_clone_creates_nothing.
 
 (* ---------------------------------------------------------------- selection_respected (full) *)
 Theorem C15_selection_respected : forall frepr cf all o src dst id,
@@ -140,6 +137,5 @@ Print Assumptions C15_model_holds.
 (* non-vacuity: the six witnesses are well-formed inputs on which the repaired model satisfies the whole oracle *)
 Example C15_example :
   forallb (fun i => holds_C15 nofl (model_case nofl cfg_current i) && wf_project (i_src i) && wf_project (i_dst i))
-          [wit_C15_w1; wit_C15_w2; wit_C15_w3; wit_C15_w4; wit_C15_w6] = true
-  /\ holds_C15 nofl (model_case nofl cfg_fixed wit_C15_w5) = true.
-Proof. vm_compute. split; reflexivity. Qed.
+          [wit_C15_w1; wit_C15_w2; wit_C15_w3; wit_C15_w4; wit_C15_w5; wit_C15_w6] = true.
+Proof. vm_compute. reflexivity. Qed.
